@@ -51,6 +51,12 @@ CHECKS["C14"] = dict(text="Decided by sequential symbolic execution: (copy isola
 CHECKS["C16"] = dict(text="The real LoadCode / addressSigned / String methods with fmt.Sprintf modelled as a rope builder: for every opcode x modifier x mode pair of the dialect (ICWS'94: all 17x7x8x8 forms; ICWS'88: every legal '88 instruction with the implied modifier) with fields on both sides of the sign boundary, and for symbolic field values over the whole range [0,M) with entry point anywhere in a 1..2 line warrior, the listing read back by a harness-side reader written from the pMARS conventions (ORG START first / END START last and no modifiers in '88, START label, signed fields, comma) denotes the same instructions (fields modulo M) and entry point, with exactly one START line; String() followed by the real name decoders is the identity on the whole data model.",
              note="Trusted: translator (witness replay), z3, the model of fmt.Sprintf (%s %d with widths and left alignment; the padding produced by widths is modelled exactly by case split on the rendered length). Core sizes 3, 8, 8000, 8001 (thorough + 8192, 55440). Warriors longer than 2 (thorough 3) lines are outside.",
              ref="5/C16")
+CHECKS["C09"] = dict(text="A symbolic warrior of the dialect (every mode pair and modifier of '94 / every legal '88 instruction for the opcodes MOV, DAT, DJN in the quick tier, 11 opcodes in the thorough tier; fields symbolic over [0,M); every entry point) printed in the canonical load-file layout is read back by the real ParseLoadFile (rope text, real line loop and field decoding) and assembled by the real scanner/parser/compiler (token stream of the same text): both reproduce exactly the instructions and entry point; layout variations - separators blank/tab/double blank, LF or CR-LF, lower-case mnemonics, a trailing comment, a comment / blank / ;author line in between, the A field printed as the equivalent negative number, with and without a final newline - do not change what is read.",
+             note="Trusted: translator (witness replay), z3, exact rope-level models of strings.Fields/Split/ReplaceAll/ToLower/Contains/HasPrefix/TrimSpace, bufio.ReadString and strconv.ParseInt (numerals are atoms without separators). The assembler path is at token level (the lexer's byte-level behaviour is C05/C03_text). Core size 8000 (thorough 8, 8192); 1..2 (3) lines.",
+             ref="5/C09")
+CHECKS["C10"] = dict(text="ParseLoadFile (real, both dialects) on every file of 1 line over 18 line kinds (blank, comment, ;name, a bare ;strategy, valid instruction lines in two layouts with symbolic signed operands up to 2^20, missing comma, deleted / duplicated fields, unknown mnemonic, junk mode, non-numeric field, ORG with symbolic signed operand, bare ORG, END, END n, '94-only modes, modifier-less MOV with #B) and every 2-line (thorough 3-line) file over a 7-kind subset, each with LF or CR-LF and with or without a final newline: terminates, never panics (incl. the metadata slicings), returns an error or a warrior whose entry point lies inside the code, whose fields are below M, which is legal under ICWS'88 when that rule set is selected; a corrupted line makes the read fail and the number of instructions equals the number of instruction lines before the end marker.",
+             note="Trusted: translator (witness replay), z3, the rope-level string models (as C09). Corruptions inside a numeral or mnemonic are represented by the vocabulary (non-numeric field, unknown mnemonic) rather than byte-level truncation. Longer files are outside.",
+             ref="5/C10")
 CHECKS = dict(sorted(CHECKS.items()))
 
 NOT_YET = {
